@@ -247,6 +247,81 @@ def _drop_wrapping_guards(preds):
     return keep
 
 
+_VIEW_FNS = ('core::convert::AsRef::as_ref', 'core::convert::AsMut::as_mut', 'core::ops::Deref::deref', 'core::ops::DerefMut::deref_mut',
+             'core::borrow::Borrow::borrow', 'core::borrow::BorrowMut::borrow_mut')
+
+
+_UCP = {}
+
+
+def _user_container_params(F, adt):
+    """Generic parameters of `adt` whose *value* a caller can supply: some public function that returns the type takes an
+    argument of exactly that parameter type (LazyContiguousCategoricalEntropyModel::from_..(probabilities: Pmf, ..)).  The
+    containers of the other models (Vec, Box, slices) are chosen by the library's own constructors and have stable views."""
+    import re
+    k = (id(F), adt)
+    if k in _UCP:
+        return _UCP[k]
+    out = set()
+
+    def top_level(text):
+        """comma-separated items of `text` at bracket depth 0."""
+        items, depth, cur = [], 0, ''
+        for ch in text:
+            if ch in '<([':
+                depth += 1
+            elif ch in '>)]':
+                depth -= 1
+            if ch == ',' and depth == 0:
+                items.append(cur.strip()); cur = ''
+            else:
+                cur += ch
+        if cur.strip():
+            items.append(cur.strip())
+        return items
+    if adt:
+        for b in F.bodies:
+            if b.promoted is not None or b.dk not in ('AssocFn', 'Fn') or b.vis != 'pub' or '::tests::' in b.defpath:
+                continue
+            sig = b.raw.get('sig') or ''
+            if not sig.startswith('fn(') or ') -> ' not in sig:
+                continue
+            args, ret = sig[3:].rsplit(') -> ', 1)
+            m = re.search(r'(?<![\w:])' + re.escape(adt) + r'<', ret)
+            if not m:
+                continue
+            # generic arguments of the returned type
+            depth, i0 = 0, m.end()
+            j = i0
+            while j < len(ret):
+                if ret[j] == '<':
+                    depth += 1
+                elif ret[j] == '>':
+                    if depth == 0:
+                        break
+                    depth -= 1
+                j += 1
+            gen = top_level(ret[i0:j])
+            arg_tys = top_level(args)
+            for name in gen:
+                if re.fullmatch(r'[A-Z][A-Za-z0-9]*', name) and name in arg_tys:
+                    out.add(name)
+    _UCP[k] = out
+    return out
+
+
+def _fresh_user_views(evaluator, st, term, c, args):
+    """call hook: a view of a value whose type is a generic parameter is a separate fetch per call site."""
+    if not c or c.get('def') not in _VIEW_FNS or not c.get('args') or not args:
+        return None
+    a0 = c['args'][0]
+    ty = evaluator.F.types[a0['ty']] if isinstance(a0, dict) and 'ty' in a0 else None
+    if not ty or ty.get('k') != 'param' or ty.get('name') not in _user_container_params(evaluator.F, evaluator.body.self_adt):
+        return None
+    inner = evaluator.deref_val(st, args[0]) if args[0][0] == 'ref' else args[0]
+    return ('call', 'user-view@bb%s' % term.get('span', {}).get('at', '?') if False else 'user-view@%s' % id(term), (inner,), None)
+
+
 def try_bound(F, res, i, e, assume_nonempty=False):
     """BOUND: get_unchecked(slice, idx | ..end). Returns reason or None."""
     if len(e['args_val']) != 2:
@@ -382,6 +457,15 @@ def check_sites(ctx, F):
                 why = try_nonzero_local(F, r, i, e)
                 kind = 'NONZERO-LOCAL' if why else None
             reasons.append(why)
+        if all(reasons) and kind == 'BOUND':
+            # single fetch: a view (as_ref / borrow / deref) of a container whose type is a generic parameter is user code; two
+            # calls may return different slices, so the guard must be about the very slice that is accessed
+            _, paths2 = rules.evaluate(b, call_hook=_fresh_user_views)
+            hits2 = list(events_at(paths2 or [], blk))
+            if paths2 is not None and hits2 and not all(try_bound(F, r2, i2, e2) for r2, i2, e2 in hits2):
+                ctx.bad('R8', role, b.defpath, 'the bound is established on one fetch of a user-supplied container (`as_ref()`/`borrow()`/`deref()` of a generic parameter, possibly inside a helper such as support_size()) and the unchecked '
+                        'access uses another fetch: a safe `AsRef` implementation may return a different (shorter) slice the second time, so the access is out of bounds', key=key, loc=loc)
+                continue
         if all(reasons):
             kinds[kind] = kinds.get(kind, 0) + 1
             ctx.ok('R8', role, b.defpath, '%s on all %d path(s): %s' % (kind, len(hits), reasons[0]), key=key, loc=loc)
